@@ -69,22 +69,24 @@ def execute(case):
     # floating point, so shares and means are bit-for-bit those of the unscaled case) - tiny
     # and huge supplies are legal inputs
     ks = case.get("supply_scale", 1)
+    # ... and so are all demands of a case (tiny demands and tiny changes of demand are demands)
+    kd = case.get("demand_scale", 1)
     for op in case["ops"]:
         e = op["e"]
         if e == "Write":
             raised = ""
             try:
-                comp.demand = op["D"] if n % 2 == 0 else float(op["D"])
+                comp.demand = (op["D"] if n % 2 == 0 else float(op["D"])) if kd == 1 else op["D"] * kd
             except Exception as ex:  # noqa: a write has no documented way to fail - the shares are what they are
                 raised = type(ex).__name__
-            events.append({"e": "Write", "D": op["D"], "cd": [scaled(c.demand, L) for c in mine], "nchildren": len(comp.children), "raised": raised})
+            events.append({"e": "Write", "D": op["D"], "cd": [scaled(c.demand / kd, L) for c in mine], "nchildren": len(comp.children), "raised": raised})
         elif e == "Read":
             def rd(fn, q):
                 try:
                     return scaled(fn(), q)
                 except Exception:  # noqa: a read that raises gives no value on any grid
                     return OFFGRID
-            events.append({"e": "Read", "demand": rd(lambda: comp.demand, 1), "supply": rd(lambda: comp.supply / ks, 1), "u": rd(lambda: comp.utilisation, 4 * L), "a": rd(lambda: comp.allocation, 4 * L), "nchildren": len(comp.children)})
+            events.append({"e": "Read", "demand": rd(lambda: comp.demand / kd, 1), "supply": rd(lambda: comp.supply / ks, 1), "u": rd(lambda: comp.utilisation, 4 * L), "a": rd(lambda: comp.allocation, 4 * L), "nchildren": len(comp.children)})
         elif e == "SetChild":
             c = mine[op["i"] - 1]
             if op["attr"] == "s":
@@ -152,7 +154,7 @@ def random_case(rnd):
         elif k:
             ops.append({"e": "Remove", "i": rnd.randrange(1, k + 1)})
             k -= 1
-    return {"kind": kind, "ops": ops, "src": "random", "supply_scale": rnd.choice([1, 1, 2.0 ** -40, 2.0 ** 40, 2.0 ** -70])}
+    return {"kind": kind, "ops": ops, "src": "random", "supply_scale": rnd.choice([1, 1, 2.0 ** -40, 2.0 ** 40, 2.0 ** -70]), "demand_scale": rnd.choice([1, 1, 1, 2.0 ** -30, 2.0 ** 30, 2.0 ** -60])}
 
 
 def judge(ctx, cases, traces, verdicts):
